@@ -55,6 +55,12 @@ func main() {
 		})
 		res["total"], res["bad"] = total, bad
 		json.NewEncoder(os.Stdout).Encode(res)
+	case "writestream":
+		seed, _ := strconv.ParseInt(os.Args[3], 10, 64)
+		if err := writeStream(os.Args[2], seed); err != nil {
+			fmt.Fprintln(os.Stderr, err)
+			os.Exit(2)
+		}
 	case "write":
 		seed, _ := strconv.ParseInt(os.Args[3], 10, 64)
 		st, err := desync.NewLocalStore(os.Args[2], desync.StoreOptions{})
